@@ -142,6 +142,10 @@ def configs(tier):
         # La (good) only proceeds once the failing Lb has been started
         {'La': script(b'La', REPORT_A, wait='Lb'), 'Lb': script(b'Lb', REPORT_B, dots=False), 'Lc': script(b'Lc', REPORT_A, dots=False)},
         {'La': script(b'La', REPORT_C, dots=False), 'Lb': 'oserror', 'Lc': script(b'Lc', REPORT_A)},
+        # the middle child sends no report / half a report: that is an error
+        # on record like any other
+        {'La': script(b'La', REPORT_A, dots=False), 'Lb': script(b'Lb', [('err', b'Fatal Python error\n')]), 'Lc': script(b'Lc', REPORT_A)},
+        {'La': script(b'La', REPORT_A, dots=False), 'Lb': script(b'Lb', [('err', b'2 1 1\n'), ('err', b'failB (m.T.failB)\n')], dots=False), 'Lc': script(b'Lc', REPORT_A)},
     ]
     for ti, sc in enumerate(xtrip):
         for N in (1, 2, 3):
@@ -386,7 +390,11 @@ def explore(cfg, collect):
         if sc == 'oserror':
             return True
         rep = b''.join(a for op, a in sc if op == 'err').splitlines()
-        return sum(map(int, rep[0].split()[1:])) > 0
+        try:
+            r, nf, ne = map(int, rep[0].split())
+        except (ValueError, IndexError):
+            return True               # no report
+        return nf + ne > 0
     first_bad = (min([i for i, n in enumerate(layer_names) if _bad(cfg['scripts'][n])] or [len(layer_names) - 1])
                  if xmode else None)
     visited = {}
